@@ -36,6 +36,7 @@ def checkLine (line : String) : String × String × Verdict :=
         | "vi" => checkVI op args r
         | "vil" => checkVIL op args r
         | "pi" => checkPI op args r
+        | "via" => checkVIA op args r
         | "fsi" => checkFSI op args r
         | "fset" => checkFSet op args r
         | "hset" => checkHSet args r
